@@ -29,7 +29,22 @@ def gen_program(rnd: random.Random, cid: str, max_ops=5, dtypes=NUM, nullable_p=
         v = f"t{k}"
         c = rnd.random()
         x = rnd.choice(vars_[-3:] + [cur])
-        if c < 0.22:
+        if c < 0.07:
+            # constant-operand shortcuts: a data-holding one-element boolean of rank 0-2 meets operands that may be
+            # placeholders with unrelated dynamic extents (the result must still be broadcast)
+            cshape = rnd.choice(["()", "(1,)", "(1, 1)"])
+            cval = rnd.choice(["True", "False"])
+            const = f"ndx.asarray(np.full({cshape}, {cval}))"
+            k_ = rnd.random()
+            y = rnd.choice(["b", cur] + names)
+            if k_ < 0.5:
+                lines.append(f"{v} = ndx.where({const}, {x}, {y})" if rnd.random() < 0.7 else f"{v} = ndx.where({const}, {y}, {x})")
+            else:
+                f = rnd.choice(["logical_and", "logical_or"])
+                args = f"{x} > 1, {const}" if rnd.random() < 0.5 else f"{const}, {x} > 1"
+                lines.append(f"{v}c = ndx.{f}({args})")
+                lines.append(f"{v} = ndx.where({v}c, {x}, {y})")
+        elif c < 0.22:
             y = rnd.choice(["b", cur, "3"])
             op = rnd.choice(["+", "-", "*"])
             lines.append(f"{v} = {x} {op} {y}")
@@ -83,7 +98,7 @@ def gen_program(rnd: random.Random, cid: str, max_ops=5, dtypes=NUM, nullable_p=
         sub = [n for i, n in enumerate(all_names) if m >> i & 1]
         s = {"names": sub}
         if symbolic and rnd.random() < 0.6:
-            s["sigs"] = {n: ops.symbolic_sig(rnd, shapes[n]) for n in sub}
+            s["sigs"] = {n: ops.symbolic_sig(rnd, shapes[n], tag=n if rnd.random() < 0.7 else "") for n in sub}
         subsets.append(s)
     rnd.shuffle(subsets)
     return {"id": cid, "inputs": inputs, "impl": src, "oracle": None, "meta": {"func": "program", "dtype": d, "dclass": dclass(d), "n_ops": n_ops},
